@@ -40,11 +40,20 @@ func vtOf(s string) consensus.VoteType {
 }
 
 // latest non-nil value the engine itself voted for or proposed
+func hasHeightOp(steps []envStep) bool {
+	for _, s := range steps {
+		if s.Op == "height" {
+			return true
+		}
+	}
+	return false
+}
+
 func ownValue(cl *Cluster, node string) *Block {
 	evs := cl.Rec.Events()
 	for i := len(evs) - 1; i >= 0; i-- {
 		e := evs[i]
-		if e["ev"] == "send" && e["node"] == node && e["kind"] == "vote" {
+		if e["ev"] == "send" && e["node"] == node && e["kind"] == "vote" && fmt.Sprint(e["h"]) == fmt.Sprint(cl.Height) {
 			if v, _ := e["val"].(string); strings.HasPrefix(v, "X") {
 				return cl.Names.Lookup(v)
 			}
@@ -85,6 +94,20 @@ func runEnv(b envBehaviour, rnd *rand.Rand) ([]Event, string) {
 		return rnd.Intn(n)
 	}
 	pendingMode := ""
+	others := []int{}
+	for i := 0; i < 4; i++ {
+		if i != b.Me {
+			others = append(others, i)
+		}
+	}
+	finalizedAt := func(h int64) (bool, int32) {
+		for _, ev := range cl.Rec.Events() {
+			if ev["ev"] == "finalize" && fmt.Sprint(ev["h"]) == fmt.Sprint(h) {
+				return true, 0
+			}
+		}
+		return false, 0
+	}
 	resolve := func(name string) *Block {
 		if name == "own" {
 			return ownValue(cl, e.name)
@@ -93,6 +116,31 @@ func runEnv(b envBehaviour, rnd *rand.Rand) ([]Event, string) {
 	}
 	for _, s := range b.Steps {
 		switch s.Op {
+		case "height":
+			// the schedule continues at the next height: needs the engine to have finalized the current one
+			dl := time.Now().Add(3 * time.Second)
+			for time.Now().Before(dl) {
+				if ok, _ := finalizedAt(cl.Height); ok {
+					break
+				}
+				time.Sleep(10 * time.Millisecond)
+			}
+			if ok, _ := finalizedAt(cl.Height); !ok {
+				return cl.Rec.Events(), ""
+			}
+			if err := cl.NextHeight(e, others, int32(s.R)); err != nil {
+				return cl.Rec.Events(), "next height: " + err.Error()
+			}
+			for _, i := range others {
+				blocks[fmt.Sprintf("B%d", i)] = cl.Fabricate(i, fmt.Sprintf("H%dB%d", cl.Height, i))
+			}
+			cl.Rec.Add(Event{"ev": "init", "node": e.name, "me": b.Me, "h": cl.Height})
+			// the engine enters the new height after its commit timeout
+			dl = time.Now().Add(4 * time.Second)
+			for time.Now().Before(dl) && e.Status().Height != cl.Height {
+				time.Sleep(10 * time.Millisecond)
+			}
+			continue
 		case "proposal":
 			var from int
 			_ = json.Unmarshal(s.From, &from)
@@ -100,7 +148,7 @@ func runEnv(b envBehaviour, rnd *rand.Rand) ([]Event, string) {
 			if blk == nil {
 				continue
 			}
-			cl.RecvEvent(e, from, "proposal", Event{"r": s.R, "val": blk.Name, "pol": s.Pol, "h": 1})
+			cl.RecvEvent(e, from, "proposal", Event{"r": s.R, "val": blk.Name, "pol": s.Pol, "h": cl.Height})
 			_ = e.Inject(from, consensus.ProtoProposal, cl.ProposalBytes(from, blk, s.R, s.Pol))
 			if blk.PartMsg != nil {
 				for _, pm := range blk.PartMsg(s.R) {
@@ -121,9 +169,21 @@ func runEnv(b envBehaviour, rnd *rand.Rand) ([]Event, string) {
 				if blk != nil {
 					name = blk.Name
 				}
-				cl.RecvEvent(e, f, "vote", Event{"type": s.Type, "r": s.R, "val": name, "h": 1})
+				cl.RecvEvent(e, f, "vote", Event{"type": s.Type, "r": s.R, "val": name, "h": cl.Height})
 				_ = e.Inject(f, consensus.ProtoVote, cl.VoteBytes(f, vtOf(s.Type), s.R, blk, 1000+int64(s.R)))
 			}
+		case "block":
+			// fast-sync result: the block with precommits of some of the other validators
+			var from []int
+			_ = json.Unmarshal(s.From, &from)
+			blk := resolve(s.Val)
+			if blk == nil || blk.Data == nil {
+				continue
+			}
+			for _, f := range from {
+				cl.RecvEvent(e, f, "vote", Event{"type": "pc", "r": s.R, "val": blk.Name, "h": cl.Height})
+			}
+			e.InjectBlock(blk, s.R, from, 1000+int64(s.R))
 		case "wait":
 			// until the engine does something observable or moves to another round (a timer fired)
 			n0 := cl.Rec.Len()
@@ -160,7 +220,7 @@ func runEnv(b envBehaviour, rnd *rand.Rand) ([]Event, string) {
 			}
 			cl.Rec.Quiesce(30*time.Millisecond, 600*time.Millisecond)
 		}
-		if finalized(cl) {
+		if ok, _ := finalizedAt(cl.Height); ok && !hasHeightOp(b.Steps) {
 			break
 		}
 	}
@@ -168,41 +228,61 @@ func runEnv(b envBehaviour, rnd *rand.Rand) ([]Event, string) {
 	return cl.Rec.Events(), ""
 }
 
-// TraceLines converts recorded events of one engine at height h into the lines of Trace_CsContract.
+// TraceLines converts recorded events of one engine into the lines of Trace_CsContract: one execution per
+// height (the contract is per height; WAL syncs and restarts belong to every height).
 func TraceLines(id string, evs []Event, node string, names *Names) []Event {
-	var out []Event
+	heights := []string{}
 	for _, e := range evs {
-		if e["node"] != node {
-			continue
+		if e["node"] == node && e["ev"] == "init" {
+			heights = append(heights, fmt.Sprint(e["h"]))
 		}
-		if h, ok := e["h"]; ok && fmt.Sprint(h) != "1" {
-			continue
-		}
-		switch e["ev"] {
-		case "init":
-			out = append(out, Event{"ev": "init", "t": id, "me": e["me"], "h": 1, "seq": e["seq"]})
-		case "recv":
-			if e["kind"] == "vote" {
-				out = append(out, Event{"ev": "recv", "seq": e["seq"], "from": e["from"], "type": e["type"], "r": e["r"], "val": e["val"]})
+	}
+	var out []Event
+	for _, h := range heights {
+		started := false
+		for _, e := range evs {
+			if e["node"] != node {
+				continue
 			}
-		case "send":
-			if e["kind"] == "vote" {
-				out = append(out, Event{"ev": "sign", "seq": e["seq"], "type": e["type"], "r": e["r"], "val": e["val"], "mid": e["mid"], "ts": e["ts"]})
-			} else if e["kind"] == "proposal" {
-				out = append(out, Event{"ev": "signprop", "seq": e["seq"], "r": e["r"], "val": e["val"], "pol": e["pol"], "mid": e["mid"]})
+			if eh, ok := e["h"]; ok && fmt.Sprint(eh) != h {
+				continue
 			}
-		case "walwrite":
-			if e["wal"] == "round" && (e["kind"] == "vote" || e["kind"] == "proposal") {
-				out = append(out, Event{"ev": "walwrite", "seq": e["seq"], "mid": e["mid"]})
+			if e["ev"] == "init" {
+				tid := id
+				if h != "1" {
+					tid = id + ".h" + h
+				}
+				out = append(out, Event{"ev": "init", "t": tid, "me": e["me"], "h": e["h"], "seq": e["seq"]})
+				started = true
+				continue
 			}
-		case "walsync":
-			if e["wal"] == "round" {
-				out = append(out, Event{"ev": "walsync", "seq": e["seq"]})
+			if !started && e["ev"] != "walwrite" && e["ev"] != "walsync" {
+				continue
 			}
-		case "restart":
-			out = append(out, Event{"ev": "restart", "seq": e["seq"]})
-		case "finalize":
-			out = append(out, Event{"ev": "finalize", "seq": e["seq"], "val": e["val"]})
+			switch e["ev"] {
+			case "recv":
+				if e["kind"] == "vote" {
+					out = append(out, Event{"ev": "recv", "seq": e["seq"], "from": e["from"], "type": e["type"], "r": e["r"], "val": e["val"]})
+				}
+			case "send":
+				if e["kind"] == "vote" {
+					out = append(out, Event{"ev": "sign", "seq": e["seq"], "type": e["type"], "r": e["r"], "val": e["val"], "mid": e["mid"], "ts": e["ts"]})
+				} else if e["kind"] == "proposal" {
+					out = append(out, Event{"ev": "signprop", "seq": e["seq"], "r": e["r"], "val": e["val"], "pol": e["pol"], "mid": e["mid"]})
+				}
+			case "walwrite":
+				if e["wal"] == "round" && (e["kind"] == "vote" || e["kind"] == "proposal") {
+					out = append(out, Event{"ev": "walwrite", "seq": e["seq"], "mid": e["mid"]})
+				}
+			case "walsync":
+				if e["wal"] == "round" {
+					out = append(out, Event{"ev": "walsync", "seq": e["seq"]})
+				}
+			case "restart":
+				out = append(out, Event{"ev": "restart", "seq": e["seq"]})
+			case "finalize":
+				out = append(out, Event{"ev": "finalize", "seq": e["seq"], "val": e["val"]})
+			}
 		}
 	}
 	return out
